@@ -756,6 +756,10 @@ def _sweep(self, i, step, hooks, viol):
            "rng_before": brec["rng_before"], "rng_after": brec["rng_after"],
            "clock_reads": brec["clock_reads"], "sim_s": brec["sim_s"]}
     outcomes = []
+    rec["then"] = []
+    if not hasattr(self, "sweep_states"):
+        self.sweep_states = {}
+    self.sweep_states[i] = st
     for kk in ks:
         fresh()
         call = dict(base_call)
@@ -776,6 +780,14 @@ def _sweep(self, i, step, hooks, viol):
             hooks.after_step(self, i, call, srec, viol)
             for v in viol[nv:]:
                 v["explicit"] = [new_step, call]
+        # crash recovery: fault-free follow-up call(s) on the SAME object after the faulted one
+        for tj, then in enumerate(step.get("then") or []):
+            trec = self.run_op(i, then, rng_state=st)   # same RNG state as the pristine evaluation
+            rec["then"].append({"k": kk, "j": tj, "ok": trec["ok"], "exc": trec.get("exc"),
+                                "digest": trec.get("digest"), "rng_after": trec["rng_after"],
+                                "summary": trec.get("summary"), "fired": bool(srec.get("fault_fired")),
+                                "first_ok": srec["ok"], "args_changed": trec["args_changed"]})
+            outcomes.append((kk, "then", tj, trec["ok"], trec.get("digest")))
     h = _h()
     h.update(repr(outcomes).encode())
     rec["sub_digest"] = h.hexdigest()[:24]
